@@ -76,6 +76,8 @@ structure Case where
   cache : String := "fresh"
   tag : String := ""
   wit : String := ""
+  clockMs : Nat := 0
+  vdiv : Nat := 0
   raw : String := ""
 
 structure SStats where
@@ -93,6 +95,7 @@ structure SStats where
   repeats : Nat := 0
   fallbackBest : Nat := 0
   mateScores : Nat := 0
+  clockCases : Nat := 0
   mateInOne : Nat := 0
   mateInTwo : Nat := 0
   avoidable : Nat := 0
@@ -105,6 +108,7 @@ structure SSt where
   infos : Array String := #[]
   bests : Array String := #[]
   wlines : Array String := #[]
+  vlines : Array String := #[]
   xlines : Array String := #[]
   tt : Table Ply := {}
   stats : SStats := {}
@@ -139,7 +143,7 @@ def parseCase (rest : String) : Case :=
     | some x => (x.drop (name.length + 1)).toString | none => ""
   { fen := fen, moves := if moves.isEmpty then [] else moves.splitOn " ",
     depth := (t.headD "1").toNat!, nodes := (kv "nodes").toNat?, stop := (kv "stop").toNat!, cache := kv "cache",
-    tag := kv "tag", wit := kv "wit", raw := rest }
+    tag := kv "tag", wit := kv "wit", clockMs := (kv "clock").toNat?.getD 0, vdiv := (kv "vdiv").toNat?.getD 0, raw := rest }
 
 /-- drop `time T` and `nps X`, normalise blanks -/
 def canonInfo (line : String) : String :=
@@ -277,11 +281,11 @@ def finishCase (s : SSt) (rline : String) : SSt := Id.run do
         | some m => some (Rules.apply p m) | none => none) (some sn.pos)).isSome
     if !ok then s := s.report "spec" "C14" "pv-not-legal" s!"line=[{line}]"
     if (toks.contains "mate") then s := { s with stats := { s.stats with mateScores := s.stats.mateScores + 1 } }
-  let unlimited := c.nodes.isNone && c.stop == 0
+  let unlimited := c.nodes.isNone && c.stop == 0 && c.vdiv == 0
   if unlimited && !legalNames.isEmpty && s.infos.size != c.depth then
     s := s.report "spec" "C14" "depth-limit-not-completed" s!"depth={c.depth} reported={s.infos.size}"
   if unlimited then s := { s with stats := { s.stats with completed := s.stats.completed + 1 } }
-  else s := { s with stats := { s.stats with aborted := s.stats.aborted + 1 } }
+  else s := { s with stats := { s.stats with aborted := s.stats.aborted + 1, clockCases := s.stats.clockCases + (if c.vdiv > 0 then 1 else 0) } }
   -- writes: nothing after an abort (budget exhausted or flag cleared)
   for w in s.wlines do
     let t := (w.drop 2).toString.splitOn " "
@@ -290,6 +294,13 @@ def finishCase (s : SSt) (rline : String) : SSt := Id.run do
     let over := match c.nodes with | some n => nodes ≥ n | none => false
     if running != "1" || over then
       s := s.report "spec" "C13" "cache-write-after-interruption" s!"write=[{w}]"
+  -- … nor after the game clock's allowance has run out (virtual clock: the time the last consultation saw)
+  for v in s.vlines do
+    let t := (v.drop 2).toString.splitOn " "
+    match (t.getD 0 "-").toNat?, (t.getD 1 "-").toNat? with
+    | some vms, some timer =>
+      if vms ≥ timer then s := s.report "spec" "C13" "cache-write-after-clock-expired" s!"virtual_ms={vms} timer={timer}"
+    | _, _ => pure ()
   -- root score = plain negamax when the cache is neutralised and nothing limits the search
   if c.cache == "off" && unlimited && !legalNames.isEmpty then
     let implScore := (kv "score").toInt!
@@ -348,7 +359,8 @@ def finishCase (s : SSt) (rline : String) : SSt := Id.run do
     return s
   -- ---------- correspondence with the executable model ----------
   let tt0 : Table Ply := if c.cache == "keep" then s.tt else {}
-  let res := chessSearch board { nodes := c.nodes } (some c.depth) (fun _ => 0) c.stop (c.cache == "off") tt0
+  let lim : GoLimits := if c.vdiv > 0 then { nodes := c.nodes, wtime := some c.clockMs, btime := some c.clockMs } else { nodes := c.nodes }
+  let res := chessSearch board lim (some c.depth) (fun k => if c.vdiv > 0 then k / c.vdiv else 0) c.stop (c.cache == "off") tt0
   let mInfos := res.infos.map renderInfo
   let iInfos := s.infos.toList.map canonInfo
   if mInfos != iInfos then
@@ -364,7 +376,7 @@ def finishCase (s : SSt) (rline : String) : SSt := Id.run do
     s := s.report "model" "C13,C12,C16" "cache-writes" s!"impl_count={iw.length} model_count={mW.length} first_diff_index={firstDiff} impl=[{iw.getD firstDiff "-"}] model=[{mW.getD firstDiff "-"}]"
   if res.st.writes.any (·.afterAbort) then
     s := s.report "model" "C13" "model-write-after-abort" ""
-  let mR := s!"nodes={res.st.nodes} seldepth={res.st.seldepth} best={match res.st.bestMove with | some m => moveFields m | none => "-"} score={match res.st.bestScore with | some x => toString x | none => "-"} polls={res.st.polls} ttsize={res.st.tt.size} ttsum={hex64 (ttSum res.st.tt)}"
+  let mR := s!"nodes={res.st.nodes} seldepth={res.st.seldepth} best={match res.st.bestMove with | some m => moveFields m | none => "-"} score={match res.st.bestScore with | some x => toString x | none => "-"} polls={res.st.polls} clockreads={if c.vdiv > 0 then toString res.st.clockReads else "-"} ttsize={res.st.tt.size} ttsum={hex64 (ttSum res.st.tt)}"
   let iR := " ".intercalate (rt.filter fun x => !x.startsWith "root=")
   if mR != iR then
     s := s.report "model" "C16,C11,C12" "counters" s!"impl=[{iR}] model=[{mR}]"
@@ -378,10 +390,11 @@ def sstep (s : SSt) (line : String) : SSt :=
   if line.startsWith "X calibration-end" then { s with skipping := false } else
   if s.skipping then s else
   if line.startsWith "S " then
-    { s with cur := some (parseCase (line.drop 2).toString), infos := #[], bests := #[], wlines := #[], xlines := #[] }
+    { s with cur := some (parseCase (line.drop 2).toString), infos := #[], bests := #[], wlines := #[], vlines := #[], xlines := #[] }
   else if line.startsWith "info " then { s with infos := s.infos.push line }
   else if line.startsWith "bestmove" then { s with bests := s.bests.push line }
   else if line.startsWith "W " then { s with wlines := s.wlines.push line }
+  else if line.startsWith "V " then { s with vlines := s.vlines.push line }
   else if line.startsWith "X " then { s with xlines := s.xlines.push line }
   else if line.startsWith "R " then finishCase s (line.drop 2).toString
   else s
@@ -396,7 +409,7 @@ def runSearch (specBudget : Nat) : IO UInt32 := do
   for r in s.reports do IO.println r
   let st := s.stats
   let samples := ",".intercalate (s.samples.toList.map fun x => "\"" ++ (x.replace "\"" "'") ++ "\"")
-  IO.println ("SUMMARY {" ++ s!"\"lines\":{s.lineNo},\"cases\":{st.cases},\"distinct_cases\":{s.distinct.size},\"info_lines\":{st.infoLines},\"cache_writes\":{st.writes},\"nodes_total\":{st.nodesTotal},\"interrupted\":{st.aborted},\"completed\":{st.completed},\"cache_off\":{st.cacheOff},\"cache_kept\":{st.kept},\"with_history\":{st.withHistory},\"negamax_checks\":{st.negamaxChecks},\"spec_negamax_checks\":{st.specNegamaxChecks},\"repeated_runs\":{st.repeats},\"fallback_bestmove\":{st.fallbackBest},\"mate_scores\":{st.mateScores},\"mate_in_one_cases\":{st.mateInOne},\"mate_in_two_cases\":{st.mateInTwo},\"avoidable_threat_cases\":{st.avoidable},\"longer_mate_kept\":{st.longerMateKept},\"model_mismatches\":{s.nModel},\"spec_mismatches\":{s.nSpec},\"samples\":[{samples}]" ++ "}")
+  IO.println ("SUMMARY {" ++ s!"\"lines\":{s.lineNo},\"cases\":{st.cases},\"distinct_cases\":{s.distinct.size},\"info_lines\":{st.infoLines},\"cache_writes\":{st.writes},\"nodes_total\":{st.nodesTotal},\"interrupted\":{st.aborted},\"clock_interrupted\":{st.clockCases},\"completed\":{st.completed},\"cache_off\":{st.cacheOff},\"cache_kept\":{st.kept},\"with_history\":{st.withHistory},\"negamax_checks\":{st.negamaxChecks},\"spec_negamax_checks\":{st.specNegamaxChecks},\"repeated_runs\":{st.repeats},\"fallback_bestmove\":{st.fallbackBest},\"mate_scores\":{st.mateScores},\"mate_in_one_cases\":{st.mateInOne},\"mate_in_two_cases\":{st.mateInTwo},\"avoidable_threat_cases\":{st.avoidable},\"longer_mate_kept\":{st.longerMateKept},\"model_mismatches\":{s.nModel},\"spec_mismatches\":{s.nSpec},\"samples\":[{samples}]" ++ "}")
   return (if s.nModel + s.nSpec == 0 then 0 else 1)
 
 end RCE.Driver
